@@ -31,7 +31,7 @@ func dirtyScript(rng *Rng, id string, withNext, canPanic bool) []Action {
 		}
 		switch rng.Intn(14) {
 		case 12:
-			s = append(s, Action{Op: rng.Pick([]string{"copy", "copy", "introspect", "cancelreq", "buildurl"}), S: "route" + strconv.Itoa(rng.Intn(4))})
+			s = append(s, Action{Op: rng.Pick([]string{"copy", "copy", "introspect", "cancelreq", "buildurl", "editquery"}), S: "route" + strconv.Itoa(rng.Intn(4))})
 		case 13:
 			s = append(s, Action{Op: "usecopy", S: "bgkey", V: id})
 		case 0, 1:
